@@ -92,13 +92,14 @@ class Unit:
     def wrapper_names(s):
         return [n[1:] for n in s.parsed().funcs if re.match(r'@w_', n)]
 
-    def gen(s, tag='x', only=None, uf=None, uffunc=None, ubcheck=False):
+    def gen(s, tag='x', only=None, uf=None, uffunc=None, ubcheck=False, indirect=False):
         """IR -> C.  returns (header_path, body_path, info)"""
         t0 = time.time()
         opts = {}
         if uf: opts['uf'] = set(uf)
         if uffunc: opts['uffunc'] = set(uffunc)
         if ubcheck: opts['ubcheck'] = True
+        if indirect: opts['indirect'] = True
         m = s.parsed()
         roots = ['@' + n for n in (only or s.wrapper_names())]
         for p in m.globals.values():   # initialiser parsers are stateful: reset
